@@ -145,13 +145,40 @@ def exporter_scenarios(rng, tier, comps=("none", "gz", "xz"), kinds=("file", "fd
         for k in (1, 2, 3, 5, 7, 20, 60, 64, 65):
             shapes.append([{"op": "rec", "n": k}, {"op": "wb"}, {"op": "rec", "n": k}, {"op": "rot", "export": True},
                            {"op": "rec", "n": k}, {"op": "wb"}])
+    # blocks larger than the encoder's 2 KiB staging buffer: write_block() itself issues write system calls, also for
+    # the FIRST block of an output (the file header and the start of the block leave with the same call)
+    big = [
+        (10000, [{"op": "rec", "n": 150}, {"op": "wb"}, {"op": "rec", "n": 3}, {"op": "wb"}]),
+        (10000, [{"op": "rec", "n": 2}, {"op": "wb"}, {"op": "rec", "n": 120}, {"op": "rot", "export": True}, {"op": "rec", "n": 90},
+                 {"op": "wb"}]),
+    ]
+    if tier == "thorough":
+        big += [(10000, [{"op": "rec", "n": 600}, {"op": "wb"}, {"op": "rot", "export": False}, {"op": "rec", "n": 200}, {"op": "wb"}]),
+                (64, [{"op": "rec", "n": 400}, {"op": "rot", "export": True}, {"op": "rec", "n": 70}, {"op": "wb"}])]
     for comp in comps:
         for kind in kinds:
-            for sh in shapes:
+            for mx, sh in [(4, x) for x in shapes] + big:
                 sid += 1
                 steps = list(sh)
                 if recover:
                     steps = steps + [{"op": "recover"}]
-                scs.append({"id": sid, "target": "exporter", "comp": comp, "kind": kind, "max": 4, "steps": steps,
+                scs.append({"id": sid, "target": "exporter", "comp": comp, "kind": kind, "max": mx, "steps": steps,
                             "pre": [2] if kind == "file" else []})
+    return scs
+
+
+def pending_scenarios(tier, kinds=("file",)):
+    """Compressed outputs closed while the compressor still holds back much data: incompressible outputs whose sizes run
+    through the residues of the compressors' internal chunking (LZMA2 chunks of up to 64 KiB are held back whole), closed
+    by rotation and by destruction - finishing the stream has to drain all of it before the output is published."""
+    sizes = [30000, 46500, 52000, 60000, 65000, 100000, 112000, 125000] + ([190000, 250000, 321000, 1000000] if tier == "thorough" else [])
+    scs = []
+    sid = 9000
+    for comp in ["gz", "xz"]:
+        for kind in kinds:
+            for i, n in enumerate(sizes):
+                sid += 1
+                chunks = [{"id": 1, "n": n, "pat": "rand", "seed": 900 + i}, {"id": 2, "n": 11, "pat": "text"}]
+                steps = ([{"op": "w", "c": 1}] if i % 2 == 0 else [{"op": "w", "c": 1}, {"op": "rot"}, {"op": "w", "c": 2}])
+                scs.append({"id": sid, "target": "writer", "comp": comp, "kind": kind, "chunks": chunks, "steps": steps, "pre": []})
     return scs
